@@ -16,7 +16,8 @@
 From Coq Require Import ZArith List Bool String Lia.
 From Model Require Import Tree Text Instr AsmAst Lexer Parser Print.
 From Spec Require Import Numerals.
-From Proofs Require Import LexerProofs LexNumProofs PiecesProofs PrintParseProofs LayoutProofs.
+From Model Require Import Obj Assembler.
+From Proofs Require Import LexerProofs LexNumProofs PiecesProofs PrintParseProofs LayoutProofs AsmShape.
 Import ListNotations.
 Open Scope Z_scope.
 
@@ -103,6 +104,51 @@ Theorem C03_layout_irrelevant_partial : forall ps1 lead1 ws1 ps2 lead2 ws2,
   exists l1 l2, parse_ast (text_of ps1) = POk l1 /\ parse_ast (text_of ps2) = POk l2 /\ map shape_stmt l1 = map shape_stmt l2.
 Proof. exact parse_layout_shape. Qed.
 Print Assumptions C03_layout_irrelevant_partial.
+
+(* the full statement: two layouts of the same written program (same statements up to source
+   positions) parse, and `assemble` treats the two parses alike — both rejected with the same error
+   kind, or both accepted with the same blocks (memory image) and, where a symbol table is kept,
+   the same label -> (address, external flag) table and relocations ([obj_sim], AsmShape.v); and the
+   symbol tables `SymbolTable::new` builds for them bind the same names to the same addresses and
+   flags ([core] drops only the source offset of the label).  Proved on the assembler model by a
+   simulation of both passes (proofs/AsmShape.v); no typing hypothesis is needed. *)
+Theorem C03_layout_irrelevant : forall ps1 lead1 ws1 ps2 lead2 ws2,
+  pieces_ok ps1 -> filter (fun t : tok => negb (is_comment (fst t))) (toks_of 0 ps1) = nl_toks lead1 ++ prog_toks ws1 -> prog_ok ws1 ->
+  pieces_ok ps2 -> filter (fun t : tok => negb (is_comment (fst t))) (toks_of 0 ps2) = nl_toks lead2 ++ prog_toks ws2 -> prog_ok ws2 ->
+  map (fun w => shape_stmt (wstmt_stmt w)) ws1 = map (fun w => shape_stmt (wstmt_stmt w)) ws2 ->
+  exists l1 l2, parse_ast (text_of ps1) = POk l1 /\ parse_ast (text_of ps2) = POk l2 /\
+    match assemble false None l1, assemble false None l2 with
+    | AOk o1, AOk o2 => o_blocks o1 = o_blocks o2 /\ obj_sim o1 o2
+    | AErr k1 _, AErr k2 _ => k1 = k2
+    | APanic, APanic => True
+    | _, _ => False
+    end /\
+    (forall t1 t2, pass1 l1 None = AOk t1 -> pass1 l2 None = AOk t2 ->
+       map core (st_labels t1) = map core (st_labels t2) /\ st_rel t1 = st_rel t2).
+Proof.
+  intros ps1 lead1 ws1 ps2 lead2 ws2 H1 H2 H3 H4 H5 H6 H7.
+  destruct (parse_layout_shape ps1 lead1 ws1 ps2 lead2 ws2 H1 H2 H3 H4 H5 H6 H7) as [l1 [l2 [P1 [P2 E]]]].
+  exists l1, l2. split; [exact P1|]. split; [exact P2|]. split.
+  - pose proof (assemble_same_shape l1 l2 E) as S. unfold rr in S.
+    destruct (assemble false None l1); destruct (assemble false None l2); try exact S. split; [exact (proj1 S) | exact S].
+  - intros t1 t2. apply pass1_same_canon. apply canon_of_shape. exact E.
+Qed.
+Print Assumptions C03_layout_irrelevant.
+
+(* letter case of labels does not matter either: statement lists that agree after erasing the
+   positions AND upper-casing (ASCII) every label name — definitions and operands — assemble alike *)
+Theorem C03_label_case_irrelevant : forall l1 l2, map canon_stmt l1 = map canon_stmt l2 ->
+  match assemble false None l1, assemble false None l2 with
+  | AOk o1, AOk o2 => o_blocks o1 = o_blocks o2 /\ obj_sim o1 o2
+  | AErr k1 _, AErr k2 _ => k1 = k2
+  | APanic, APanic => True
+  | _, _ => False
+  end.
+Proof.
+  intros l1 l2 E. pose proof (assemble_same_canon l1 l2 E) as S. unfold rr in S.
+  destruct (assemble false None l1); destruct (assemble false None l2); try exact S. split; [exact (proj1 S) | exact S].
+Qed.
+Print Assumptions C03_label_case_irrelevant.
 
 (* ---- the hypotheses are satisfiable: a text with a blank first line, a label with colon and tab,
         mixed-case mnemonic, blanks around commas, R/r with leading zero, #-n, a comment ending in
